@@ -109,8 +109,8 @@ var kindName = map[opKind]string{
 type op struct {
 	k       opKind
 	a, s, v int    // address, slot, value index
-	n       uint64 // amount / nonce / refund
-	big     bool   // amount is n<<100
+	n       uint64   // nonce / refund
+	amt     *big.Int // balance operations
 	code    int
 	del     bool
 	th      common.Hash
@@ -128,21 +128,15 @@ type op struct {
 }
 
 func (o *op) amount() *big.Int {
-	x := new(big.Int).SetUint64(o.n)
-	if o.big {
-		x.Lsh(x, 100)
+	if o.amt == nil {
+		return big0
 	}
-	return x
+	return o.amt
 }
 
 func (o op) String() string {
 	n := kindName[o.k]
-	amt := func() string {
-		if o.big {
-			return fmt.Sprintf("%d<<100", o.n)
-		}
-		return fmt.Sprint(o.n)
-	}
+	amt := func() string { return o.amount().String() }
 	switch o.k {
 	case opAddBal, opSubBal, opSetBal:
 		return fmt.Sprintf("%s a%d %s", n, o.a, amt())
@@ -161,7 +155,7 @@ func (o op) String() string {
 	case opAclSlot:
 		return fmt.Sprintf("%s a%d s%d", n, o.a, o.s)
 	case opPrepare, opSetTxCtx:
-		return fmt.Sprintf("%s %x/%d", n, o.th[:2], o.ti)
+		return fmt.Sprintf("%s %x/%d", n, o.th[29:], o.ti)
 	case opFinalise, opInterRoot:
 		return fmt.Sprintf("%s del=%v", n, o.del)
 	case opSetStorage:
@@ -295,6 +289,7 @@ type mTxLogs struct {
 
 // model is copied by plain assignment: slices and maps inside are copy-on-write.
 type model struct {
+	st      *caseStats // counters of the running case (shared by copies of the model; may be nil)
 	acc     [NA + 1]mAcct
 	refund  uint64
 	jlen    int // un-reverted journal entries since the last Finalise
@@ -329,6 +324,9 @@ func (m *model) ensure(a int, kinds *[]string) *mAcct {
 		k := "create"
 		if ac.ghost {
 			k = "reset"
+			if m.st != nil {
+				m.st.resurrect++
+			}
 		}
 		*kinds = append(*kinds, k)
 		*ac = mAcct{exists: true, dirty: true, ghost: ac.ghost, bal: big0}
@@ -403,6 +401,14 @@ func (m *model) apply(o *op) []string {
 		bal := big0
 		if ac.exists {
 			bal = ac.bal
+		}
+		if m.st != nil {
+			if ac.exists && !ac.suicided {
+				m.st.createOver++
+			}
+			if ac.ghost || ac.suicided {
+				m.st.resurrect++
+			}
 		}
 		*ac = mAcct{exists: true, dirty: true, ghost: ac.ghost, bal: bal}
 		kinds = append(kinds, k)
@@ -486,6 +492,13 @@ func (m *model) finalise(del bool) {
 		ac := &m.acc[i]
 		if ac.dirty && ac.exists {
 			if ac.suicided || (del && ac.empty()) {
+				if m.st != nil {
+					if ac.suicided {
+						m.st.suicided++
+					} else {
+						m.st.emptyDeleted++
+					}
+				}
 				*ac = mAcct{ghost: true, bal: big0}
 			} else {
 				ac.cst = ac.st
@@ -504,9 +517,9 @@ func (m *model) reopen() {
 	for i := range m.acc {
 		m.acc[i].ghost = false
 	}
-	acc := m.acc
+	acc, st := m.acc, m.st
 	*m = newModel()
-	m.acc = acc
+	m.acc, m.st = acc, st
 }
 
 func (m *model) observe() *obs {
@@ -535,16 +548,18 @@ func (m *model) observe() *obs {
 		}
 	}
 	o.Refund = m.refund
-	var sb strings.Builder
+	var per []string
 	for _, tl := range m.logs {
-		fmt.Fprintf(&sb, "%x:", tl.th[:2])
+		var sb strings.Builder
+		fmt.Fprintf(&sb, "%x:", tl.th[29:])
 		for _, e := range tl.e {
 			fmt.Fprintf(&sb, " a%d/%d/%d", e.a, e.ti, e.idx)
 			o.NLogs++
 		}
-		sb.WriteString(";")
+		per = append(per, sb.String())
 	}
-	o.Logs = sb.String()
+	sort.Strings(per)
+	o.Logs = strings.Join(per, ";")
 	o.Preimages = preimageText(m.pre)
 	o.TxIndex = m.ti
 	return &o
